@@ -97,6 +97,41 @@ SPEC_TABLE = {
 }
 
 
+def _passed(f, e):
+    """The text of an argument as the callee receives it: a local temporary with one plain definition is read through,
+    an explicit None is the absent argument."""
+    if e is None:
+        return None
+    if isinstance(e, ast.Name) and e.id not in f.params:
+        dv = astx.unique_def(f.node, e.id)
+        if dv is not None:
+            e = dv
+    if astx.is_const(e, None):
+        return None
+    return astx.u(e)
+
+
+def _is_default_budget(f, e):
+    """`m if k is None else k` (either way round), possibly through a temporary."""
+    if isinstance(e, ast.Name) and e.id not in f.params:
+        e = astx.unique_def(f.node, e.id) or e
+    if isinstance(e, ast.Name) and e.id not in f.params:
+        # the same choice as two guarded assignments of one temporary (what the loader makes of a conditional expression)
+        pm = astx.parents(f.node)
+        N = Normalizer(f.node, inline=False)
+        cases = {}
+        for st, dv in astx.defs_of(f.node, e.id):
+            if dv is None:
+                return False
+            cases[frozenset(literals(N.conj(astx.path_condition(f.node, st, pm))))] = astx.u(dv)
+        return cases == {frozenset({"isnone(k)"}): "m", frozenset({"not isnone(k)"}): "k"}
+    if not isinstance(e, ast.IfExp):
+        return False
+    k = bool_key(Normalizer(f.node, inline=False).guard(e.test))
+    a, b = astx.u(e.body), astx.u(e.orelse)
+    return (k == "isnone(k)" and (a, b) == ("m", "k")) or (k == "not isnone(k)" and (a, b) == ("k", "m"))
+
+
 def r5_subclass_table(ctx):
     prog = ctx.prog
     gr = prog.find_func("GeneralRating.__init__")
@@ -107,7 +142,9 @@ def r5_subclass_table(ctx):
             ctx.violated(f, f.node, f"{cname}: constructor chain", "no super().__init__ call")
             continue
         b = astx.bind_args(call, gr.params, skip_self=True)
-        got = {p: (astx.u(b[p]) if p in b else None) for p in want}
+        got = {p: _passed(f, b.get(p)) for p in want}
+        if cname == "BlocPlurality" and _is_default_budget(f, b.get("k")):
+            got["k"] = "k"   # the documented default written as one expression (decided below)
         prof_ok = astx.is_name(b.get(gr.params[1]), f.params[1])
         ctx.check(got == want and prof_ok, f, call, f"{cname} -> GeneralRating(m={want['m']}, L={want['L']}, k={want['k']})", str(got),
                   f"{cname} passes {got}; documented {want}")
@@ -116,7 +153,7 @@ def r5_subclass_table(ctx):
     call = facts.super_init_call(f)
     lim = prog.find_func("Limited.__init__")
     b = astx.bind_args(call, lim.params, skip_self=True) if call is not None else {}
-    got = {p: (astx.u(b[p]) if p in b else None) for p in ("m", "k", "tiebreak")}
+    got = {p: _passed(f, b.get(p)) for p in ("m", "k", "tiebreak")}
     ctx.check(got == {"m": "m", "k": "m", "tiebreak": "tiebreak"} and prog.find_class("Cumulative").base_names[0].endswith(".Limited"), f, call or f.node,
               "Cumulative -> Limited(m, k=m)", str(got), f"Cumulative passes {got}; documented budget k = m")
     # BlocPlurality: k defaults to m only when absent
@@ -125,6 +162,9 @@ def r5_subclass_table(ctx):
     N = Normalizer(f.node, inline=False)
     defs = [st for st, dv in astx.defs_of(f.node, "k") if dv is not None]
     good = len(defs) == 1 and astx.is_name(defs[0].value, "m") and literals(N.conj(astx.path_condition(f.node, defs[0], pm))) == {"isnone(k)"}
+    call = facts.super_init_call(f)
+    if not defs and call is not None and _is_default_budget(f, astx.bind_args(call, gr.params, skip_self=True).get("k")):
+        good = True
     ctx.check(good, f, defs[0] if defs else f.node, "BlocPlurality: k = m only when k is None", "", "BlocPlurality's default budget is not `m when k is None`")
     # parameters are not altered between constructor and use
     for attr in ("L", "k", "m", "tiebreak"):
